@@ -308,6 +308,72 @@ theorem lex_term (hT : TextOK T L S) (uni : Bool) : ∀ t : Skel, t.WF T L → t
       have := ha.2 (([46, 46] ++ (printText T L S uni b ++ [125])) ++ rest)
       simpa [List.append_assoc] using this))
     simpa [printText, printSkel, List.append_assoc] using h1'
+  | collect x body ihb =>
+    intro hw hn
+    have hb := ihb hw hn.2
+    obtain ⟨⟨hLc, hLt, hLs⟩, _, ⟨hRc, hRt, hRs⟩⟩ := hbr
+    have hL : Steps S [123] [.sym L.lbrace] (SafeAfter S [123]) := by
+      have := steps_symbol (S := S) (w := [123]) (by decide) hLc
+      rw [hLt] at this; exact this
+    have hR : Steps S [125] [.sym L.rbrace] Follow := by
+      have := steps_symbol (S := S) (w := [125]) (by decide) hRc
+      rw [hRt] at this
+      exact this.mono (fun rest _ => safe_only hRs rest)
+    have hD : Steps S [46, 32] [.dot] (SafeAfter S [46, 32]) := by
+      have := steps_symbol (S := S) (w := [46, 32]) (by decide) hdotT
+      simpa [tokOfTerminal] using this
+    obtain ⟨hxn, hxi⟩ := hn.1
+    have hxs : ∀ r, TextStart T (x ++ r) := by
+      intro r
+      cases x with
+      | nil => simp [idShaped] at hxi
+      | cons c cs =>
+        simp only [idShaped, Bool.and_eq_true] at hxi
+        simp only [List.cons_append]
+        exact ts_head _ (Or.inl hxi.1)
+    refine ⟨?_, fun rest => by simpa [printText] using ts_lbrace (T := T) _⟩
+    have h4 := Steps.append hb.1 hR (fun rest _ => follow_rbrace rest)
+    have h3 := Steps.append hD h4 (fun rest _ => safe_dot hsafeD _)
+    have h2 := Steps.append (steps_name hxn) h3 (fun rest _ => by
+      intro c r hr; simp at hr; rw [← hr.1]; decide)
+    have h1' := Steps.append hL h2 (fun rest _ => safe_beforeTerm hLs (by
+      simp only [List.append_assoc]; exact hxs _))
+    simpa [printText, printSkel, List.append_assoc] using h1'
+  | collectT x ty body ihb =>
+    intro hw hn
+    have hb := ihb hw hn.2.2
+    have hty := ty_lex hTy uni ty hn.2.1
+    have hC : Steps S [58, 58] [.sym L.dcolon] (fun _ => True) := dcolon_steps hdc
+    obtain ⟨⟨hLc, hLt, hLs⟩, _, ⟨hRc, hRt, hRs⟩⟩ := hbr
+    have hL : Steps S [123] [.sym L.lbrace] (SafeAfter S [123]) := by
+      have := steps_symbol (S := S) (w := [123]) (by decide) hLc
+      rw [hLt] at this; exact this
+    have hR : Steps S [125] [.sym L.rbrace] Follow := by
+      have := steps_symbol (S := S) (w := [125]) (by decide) hRc
+      rw [hRt] at this
+      exact this.mono (fun rest _ => safe_only hRs rest)
+    have hD : Steps S [46, 32] [.dot] (SafeAfter S [46, 32]) := by
+      have := steps_symbol (S := S) (w := [46, 32]) (by decide) hdotT
+      simpa [tokOfTerminal] using this
+    obtain ⟨hxn, hxi⟩ := hn.1
+    have hxs : ∀ r, TextStart T (x ++ r) := by
+      intro r
+      cases x with
+      | nil => simp [idShaped] at hxi
+      | cons c cs =>
+        simp only [idShaped, Bool.and_eq_true] at hxi
+        simp only [List.cons_append]
+        exact ts_head _ (Or.inl hxi.1)
+    refine ⟨?_, fun rest => by simpa [printText] using ts_lbrace (T := T) _⟩
+    have h5 := Steps.append hb.1 hR (fun rest _ => follow_rbrace rest)
+    have h4 := Steps.append hD h5 (fun rest _ => safe_dot hsafeD _)
+    have h3' := Steps.append hty h4 (fun rest _ => follow_dot _)
+    have h3 := Steps.append hC h3' (fun _ _ => trivial)
+    have h2 := Steps.append (steps_name hxn) h3 (fun rest _ => by
+      intro c r hr; simp at hr; rw [← hr.1]; decide)
+    have h1' := Steps.append hL h2 (fun rest _ => safe_beforeTerm hLs (by
+      simp only [List.append_assoc]; exact hxs _))
+    simpa [printText, printSkel, List.append_assoc] using h1'
 
 /-- the lexer reads the printed text back as the printed tokens -/
 theorem lex_print_core (hT : TextOK T L S) (uni : Bool) (t : Skel) (hw : t.WF T L) (hn : t.NamesOK S) :
